@@ -3,10 +3,12 @@
 use crate::report::*;
 
 pub mod common;
+pub mod conc;
 pub mod c02;
 pub mod c04;
 pub mod c05;
 pub mod c07;
+pub mod c09;
 pub mod c12;
 pub mod c13;
 pub mod c14;
@@ -31,10 +33,12 @@ pub struct Scenario {
 
 pub fn all() -> Vec<Scenario> {
     vec![
+        Scenario { name: "conc", plan: conc::plan, run: conc::run },
         Scenario { name: "c02", plan: c02::plan, run: c02::run },
         Scenario { name: "c04", plan: c04::plan, run: c04::run },
         Scenario { name: "c05", plan: c05::plan, run: c05::run },
         Scenario { name: "c07", plan: c07::plan, run: c07::run },
+        Scenario { name: "c09", plan: c09::plan, run: c09::run },
         Scenario { name: "c12", plan: c12::plan, run: c12::run },
         Scenario { name: "c13", plan: c13::plan, run: c13::run },
         Scenario { name: "c14", plan: c14::plan, run: c14::run },
